@@ -10,7 +10,7 @@
 (***************************************************************************)
 EXTENDS Instance, Json
 
-CONSTANTS ClsSet, StepSet, GSet, SndSet, PriorSet, Multi, SoSet, Rounds
+CONSTANTS ClsSet, StepSet, GSet, SndSet, PriorSet, Multi, SoSet, Rounds, LateSet
 VARIABLES case, st, res, hist, done
 vars == <<case, st, res, hist, done>>
 
@@ -51,7 +51,11 @@ Orders == IF NP = 1 THEN {<<1>>}
           ELSE IF NP = 2 THEN {<<1, 2>>, <<2, 1>>}
           ELSE {<<1, 2, 3>>, <<3, 2, 1>>, <<2, 3, 1>>}
 
-Cases == [cls : ClsSet, so : SoSet, prior : [Ports -> PriorSet], cand : [Ports -> PerPort], ord : Orders]
+\* LateSet: which sets of ports hear their masters only after the first BMCA round (Rounds = 2): a port that became slave,
+\* master or passive in round one is re-decided in round two against candidates that were not there before
+Late_None == {{}}
+Late_All == SUBSET Ports
+Cases == [cls : ClsSet, so : SoSet, prior : [Ports -> PriorSet], cand : [Ports -> PerPort], ord : Orders, late : LateSet]
 
 Ann(p, c, seq) == [e |-> "ann", p |-> p, src |-> <<c.snd, 1>>, seq |-> seq, g |-> G(c.g), steps |-> c.steps, tp |-> Tp(c.g + c.steps)]
 RECURSIVE AnnPort(_, _, _, _)
@@ -67,11 +71,16 @@ Script(c) ==
              \o (IF c.so THEN <<[e |-> "so", v |-> TRUE]>> ELSE <<>>)
       pri == [p \in Ports |-> IF c.prior[p] = "M" THEN <<[e |-> "t", k |-> "rcpt", p |-> p]>> ELSE <<>>]
       \* first all first Announces in port order, then the second ones in reverse candidate order
-      a1 == [p \in Ports |-> AnnPort(p, c.cand[p], 1, 7)]
-      a2 == [p \in Ports |-> AnnPort2(p, c.cand[p], 1)]
-      a3 == [p \in Ports |-> AnnPort(p, c.cand[p], 1, 9)]
+      early == [p \in Ports |-> IF p \in c.late THEN <<>> ELSE c.cand[p]]
+      lat == [p \in Ports |-> IF p \in c.late THEN c.cand[p] ELSE <<>>]
+      a1 == [p \in Ports |-> AnnPort(p, early[p], 1, 7)]
+      a2 == [p \in Ports |-> AnnPort2(p, early[p], 1)]
+      a3 == [p \in Ports |-> AnnPort(p, early[p], 1, 9)]
+      l1 == [p \in Ports |-> AnnPort(p, lat[p], 1, 7)]
+      l2 == [p \in Ports |-> AnnPort2(p, lat[p], 1)]
       round == Over(a1, 1) \o Over(a2, 1) \o <<[e |-> "bmca", ord |-> c.ord]>>
-  IN pre \o Over(pri, 1) \o round \o (IF Rounds = 2 THEN Over(a3, 1) \o <<[e |-> "bmca", ord |-> c.ord]>> ELSE <<>>)
+  IN pre \o Over(pri, 1) \o round
+     \o (IF Rounds = 2 THEN Over(a3, 1) \o Over(l1, 1) \o Over(l2, 1) \o <<[e |-> "bmca", ord |-> c.ord]>> ELSE <<>>)
 
 RECURSIVE Run(_, _, _, _)
 Run(s, sc, i, last) == IF i > Len(sc) THEN [s |-> s, last |-> last]
